@@ -19,7 +19,10 @@ macro_rules! with_check {
             "C04" => $f::<props::c03::C04>($($arg),*),
             "C05" => $f::<props::c05::C05>($($arg),*),
             "C06" => $f::<props::c06::C06>($($arg),*),
+            "C07" => $f::<props::core::C07>($($arg),*),
+            "C08" => $f::<props::core::C08>($($arg),*),
             "C09" => $f::<props::c09::C09>($($arg),*),
+            "C18" => $f::<props::core::C18>($($arg),*),
             "C10" => $f::<props::c10::C10>($($arg),*),
             "C14" => $f::<props::c14::C14>($($arg),*),
             other => {
@@ -79,6 +82,28 @@ fn replay<C: Check>(file: &Path) -> i32 {
             }
             println!("violation at step {}: {}", v.step, v.msg);
             println!("VIOLATION property={} replay={}", C::ID, file.display());
+            1
+        }
+    }
+}
+
+fn shrink<C: Check>(file: &Path) -> i32 {
+    nomt_verif::driver::install_panic_hook();
+    match runner::shrink_file::<C>(file, 600) {
+        None => {
+            println!("case does not fail; nothing to shrink");
+            0
+        }
+        Some((case, v)) => {
+            let out = file.with_extension("shrunk.json");
+            let r = runner::Replay::<C::Case> {
+                property: C::ID.to_string(),
+                message: v.msg.clone(),
+                step: v.step,
+                case,
+            };
+            std::fs::write(&out, serde_json::to_string_pretty(&r).unwrap()).unwrap();
+            println!("shrunk case written to {} ({})", out.display(), v.msg);
             1
         }
     }
@@ -299,6 +324,10 @@ fn main() {
             let nshards: u32 = args[6].parse().unwrap();
             let out = PathBuf::from(&args[7]);
             with_check!(args[2].as_str(), worker, tier, seed, shard, nshards, &out)
+        }
+        Some("shrink") => {
+            let f = PathBuf::from(&args[3]);
+            with_check!(args[2].as_str(), shrink, &f)
         }
         Some("replay") => {
             let f = PathBuf::from(&args[3]);
